@@ -223,6 +223,38 @@ func RunC12(d *Driver) *Report {
 		src += "print orig arr\nfor k := range arr[1]\n    print k arr[1][k]\nend\nfor k := range orig\n    print k\nend\nprint (len arr[2]) (len orig) (arr[1] == orig) (arr[0] == orig)\n"
 		evalStream(r, d, "copies", src, RunOpts{}, parts, true, nil)
 	}
+	// 3b. a loop over a map entered while another one is running — directly, through an alias, or in a called function;
+	// over another map (shorter, equal, longer) or over the same map after the body deleted or inserted a key
+	for _, inner := range []string{"{x:1 y:2}", "{x:1 y:2 z:3}", "{x:1 y:2 z:3 w:4 v:5}", "m", "m2", "{}"} {
+		for _, mut := range []string{"", "    del m k\n", "    del m \"c\"\n", "    m.z = 9\n", "    del m2 \"a\"\n    m.a = 7\n"} {
+			for _, via := range []string{"direct", "call"} {
+				src := "m := {a:1 b:2 c:3}\nm2 := m\nn := " + inner + "\n"
+				if inner == "m" || inner == "m2" {
+					src = "m := {a:1 b:2 c:3}\nm2 := m\n"
+				} else if inner == "{}" {
+					src = "m := {a:1 b:2 c:3}\nm2 := m\nn:{}num\n"
+				}
+				in := inner
+				if in != "m" && in != "m2" {
+					in = "n"
+				}
+				if via == "call" {
+					src += "func walk mm:{}num tag:string\n    for j := range mm\n        print tag j\n    end\nend\n"
+					src += "for k := range m\n    print \"outer\" k\n" + mut + "    walk " + in + " k\nend\n"
+				} else {
+					src += "for k := range m\n    print \"outer\" k\n" + mut + "    for j := range " + in + "\n        print k j\n    end\nend\n"
+				}
+				src += "print m (len m2)\n"
+				if in == "n" {
+					src += "print n\n"
+				}
+				c := evalStream(r, d, "nested-range", src, RunOpts{}, parts, true, nil)
+				if c.Skipped == "rejected" {
+					r.Disagree(Case{Stream: "nested-range", Input: src, Real: "rejected: " + c.Real.ParseErr, Note: "harness program should be accepted"})
+				}
+			}
+		}
+	}
 	// 4. equality: two maps are equal iff they have the same keys with equal values, in any order
 	type kv struct {
 		k string
